@@ -9,6 +9,7 @@ import (
 	"path/filepath"
 	"sort"
 	"strings"
+	"unicode/utf8"
 
 	"verif/mc/engine"
 	"verif/mc/fixture"
@@ -216,7 +217,7 @@ func init() {
 			// thousands of files
 			for _, f := range Formats {
 				for _, s := range c04Settings(f) {
-					for _, l := range [][]model.Entry{{{Src: "huge/noise.bin", Dst: "/opt/noise.bin"}}, {{Src: "huge", Dst: "/opt/huge", Type: "tree"}, {Src: "etc/app.conf", Dst: "/etc/app.conf", Type: "config"}}, {{Src: "many", Dst: "/opt/many", Type: "tree"}}} {
+					for _, l := range [][]model.Entry{{{Src: "huge/noise.bin", Dst: "/opt/noise.bin"}}, {{Src: "huge", Dst: "/opt/huge", Type: "tree"}, {Src: "etc/app.conf", Dst: "/etc/app.conf", Type: "config"}}, {{Src: "many", Dst: "/opt/many", Type: "tree"}}, {{Src: "oddnames", Dst: "/opt/odd", Type: "tree"}, {Src: "oddnames/c*", Dst: "/etc/odd", Type: "config"}}, {{Src: "hardlinks", Dst: "/opt/hl", Type: "tree"}}} {
 						if !yield(C04Case{Class: "large", Format: f, Setting: s, List: l}) {
 							return
 						}
@@ -605,6 +606,24 @@ func secondOpinionBsdtar(env *engine.Env, data []byte, wantNames []string, viol 
 	var o, e bytes.Buffer
 	cmd.Stdout, cmd.Stderr = &o, &e
 	if err := cmd.Run(); err != nil {
+		// one narrow class of its own: the only complaint is that a member name is not UTF-8 (a name found on disk that
+		// way), which a pax path record must be
+		nonUTF8 := false
+		for _, n := range wantNames {
+			if !utf8.ValidString(n) {
+				nonUTF8 = true
+			}
+		}
+		onlyConv := true
+		for _, l := range strings.Split(strings.TrimSpace(e.String()), "\n") {
+			if !strings.Contains(l, "Pathname can't be converted from UTF-8 to current locale") && !strings.Contains(l, "Error exit delayed from previous errors") {
+				onlyConv = false
+			}
+		}
+		if nonUTF8 && onlyConv {
+			viol("wellformed:bsdtar-rejects:archlinux:name-not-utf8", "bsdtar -tf complains about a member name that is not UTF-8 (as found on disk): %s", e.String())
+			return
+		}
 		viol("wellformed:bsdtar-rejects:archlinux", "bsdtar -tf rejects the package: %v: %s", err, e.String())
 		return
 	}
